@@ -66,7 +66,7 @@ class Query:
         self.replace = []; self.selfstub = False; self.harness = ''; self.unwindset = []
         self.flags = []; self.object_bits = None; self.timeout = None; self.expect_unreachable = False
         self.kind = 'proof'; self.unit = None; self.vars = {}; self.args = None; self.entry = None
-        self.no_enforce = False; self.note = ''; self.pre_unwind = []; self.switch_slice = []; self.no_loop_contracts = False; self.plain = False; self.also = []; self.cflags = []; self.checks = 'default'; self.slice_group = None; self.models = []
+        self.no_enforce = False; self.note = ''; self.pre_unwind = []; self.switch_slice = []; self.no_loop_contracts = False; self.plain = False; self.also = []; self.cflags = []; self.checks = 'default'; self.slice_group = None; self.models = []; self.mem_gb = None
 
 class UnitSpec:
     def __init__(self, name):
@@ -164,6 +164,7 @@ def parse_file(path):
                 elif key == 'entry': cur.entry = rest
                 elif key == 'replace': cur.replace += rest.split()
                 elif key == 'selfstub': cur.selfstub = True
+                elif key == 'mem-gb': cur.mem_gb = int(rest)    # address-space limit of cbmc for this query (default 14)
                 elif key == 'model': cur.models += rest.split()   # bodiless functions whose (trusted) body is written in the prelude
                 elif key == 'harness': cur.harness += raw_block(rest.split('<<<', 1)[1]) + '\n'
                 elif key == 'unwindset': cur.unwindset += rest.split()
